@@ -866,14 +866,14 @@ def parse_args(
         if k in STYLES.keys() and not isinstance(kwargs[k], bool):
             raise ValueError(f"Bad {k} value: {kwargs[k]!r}")
     if "fg" in kwargs:
-        if kwargs["fg"] in FG_COLORS:
+        if isinstance(kwargs["fg"], str) and kwargs["fg"] in FG_COLORS:
             kwargs["fg"] = FG_COLORS[cast(str, kwargs["fg"])]
         if not isinstance(kwargs["fg"], int) or kwargs["fg"] not in list(
             FG_COLORS.values()
         ):
             raise ValueError(f"Bad fg value: {kwargs['fg']!r}")
     if "bg" in kwargs:
-        if kwargs["bg"] in BG_COLORS:
+        if isinstance(kwargs["bg"], str) and kwargs["bg"] in BG_COLORS:
             kwargs["bg"] = BG_COLORS[cast(str, kwargs["bg"])]
         if not isinstance(kwargs["bg"], int) or kwargs["bg"] not in list(
             BG_COLORS.values()
